@@ -68,6 +68,8 @@ def _lib_components(s) -> str:
 
 
 def schema_files(s) -> dict:
+    if "_files" in s:
+        return s["_files"]          # a hand-written schema of the corpus (props/c02.py handwritten_corpus)
     L = lib_ns(s)
     body = f'<xs:element ref="l:h"{_occ(*s["occ"])}/>'
     if s["alsoM1"] and s["nmem"] >= 1:
@@ -112,6 +114,8 @@ PFX = {T: "t", "urn:o": "l", "urn:f": "f"}
 
 
 def doc_xml(s, doc) -> str:
+    if isinstance(doc, str):
+        return doc                  # a hand-written document of the corpus
     L = lib_ns(s)
 
     def el(o):
